@@ -3,6 +3,7 @@ package c08
 import (
 	"fmt"
 	"os"
+	"strings"
 	"testing"
 	"time"
 
@@ -24,7 +25,12 @@ func TestProbe(t *testing.T) {
 	insts = append(insts, fam(elcomopCase(k))...)
 	insts = append(insts, fam(elogCase(k))[:1]...)
 	if os.Getenv("VERIF_C08_PROBE") == "heavy" {
-		insts = heavyInsts()
+		insts = nil
+		for _, l := range heavyTable {
+			if f := os.Getenv("VERIF_C08_ONLY"); f == "" || strings.Contains(l.name, f) {
+				insts = append(insts, l.get())
+			}
+		}
 	}
 	for _, n := range only(insts) {
 		for _, c := range compilers {
